@@ -118,6 +118,14 @@ def gen_cases(rng, tier):
                "max_events": 120 if tier == "quick" else 250, "style": "distinct", "p_fail": 0, "p_early": rng.choice([0.1, 0.2]),
                "max_t": rng.choice([9, 27]), "extra": {"brackets": rng.choice([1, 1, 2]), "reduction_factor": rng.choice([2, 3])},
                "modes": [rng.choice(["min", "max"]), rng.choice(["min", "max", "max"])]}
+    # ... and scripts that report every second level only: a rung level the script has passed without a report receives its
+    # entry from a later report or from the final result
+    for _ in range(8 if tier == "quick" else 80):
+        yield {"name": "moasha", "sched_seed": rng.randrange(10 ** 6), "seed": rng.randrange(10 ** 9),
+               "cs_kind": rng.choice(["mixed", "cont", "finite"]), "n_workers": rng.randint(2, 5),
+               "max_events": 120 if tier == "quick" else 250, "style": "distinct", "p_fail": 0, "p_early": rng.choice([0.2, 0.4]),
+               "stride": 2, "max_t": rng.choice([8, 16]), "extra": {"brackets": 1, "reduction_factor": 2},
+               "modes": [rng.choice(["min", "max"]), rng.choice(["min", "max", "max"])]}
     # best-configuration reporting: TuningStatus / print_best_metric_found and ExperimentResult.best_config
     for _ in range(12 if tier == "quick" else 150):
         yield {"status": True, "seed": rng.randrange(10 ** 9), "n_trials": rng.randint(1, 8),
@@ -187,7 +195,7 @@ def run_status(spec):
             continue
         v = (rng.randrange(1, 1024) * 64 + len(rows)) / 65536.0       # pairwise distinct, negation exact
         rows.append((t, v))
-    out = []
+    out, tuner_best = [], []
     for mode, sign in (("min", 1.0), ("max", -1.0)):
         st = TuningStatus(["loss"])
         trials = {t: Trial(t, {"x": t}, datetime.datetime(2020, 1, 1)) for t in range(n)}
@@ -204,8 +212,35 @@ def run_status(spec):
                 df.loc[1, "loss"] = float("nan")
             er = ExperimentResult(name="e", results=df, metadata={"metric_names": ["loss"], "metric_mode": mode}, tuner=None, path=None)
             er_best = int(er.best_config()["trial_id"])
+        # Tuner.best_config on a scheduler with per-metric modes (MOASHA): the mode of the metric asked for decides
+        tb = None
+        if rows:
+            from syne_tune import Tuner
+            from syne_tune.optimizer.schedulers.multiobjective import MOASHA
+            from syne_tune.config_space import randint
+            import types
+            other = ["min", "max"][spec["seed"] % 2]
+            sch = MOASHA({"x": randint(0, 100)}, metrics=["aux", "loss"], mode=[other, mode], time_attr="epoch", max_t=9)
+            st2 = TuningStatus(["aux", "loss"])
+            st2.update({t: (trials[t], "in_progress") for t in range(n)}, [])
+            for t, v in rows:
+                st2.update({t: (trials[t], "in_progress")}, [(t, {"loss": sign * v, "aux": float(t), "epoch": 1})])
+            tun = Tuner.__new__(Tuner)
+            tun.scheduler, tun.tuning_status = sch, st2
+            tun.trial_backend = types.SimpleNamespace(_trial_dict=trials)
+            with contextlib.redirect_stdout(io.StringIO()):
+                tb = (int(tun.best_config(metric="loss")[0]), int(tun.best_config(metric=1)[0]))
+        tuner_best.append(tb)
         out.append((res, er_best))
     mon = []
+    if tuner_best[0] != tuner_best[1] or (tuner_best[0] is not None and tuner_best[0][0] != tuner_best[0][1]):
+        mon.append({"signature": "c15:pair-diverges:tuner-best-config",
+                    "what": f"Tuner.best_config (MOASHA, per-metric modes; by name, by index): mode=min on f gives trials {tuner_best[0]}, "
+                            f"mode=max on -f gives {tuner_best[1]}", "detail": {"rows": rows[:20]}})
+    elif rows and tuner_best[0] is not None and tuner_best[0][0] != min(rows, key=lambda x: x[1])[0]:
+        mon.append({"signature": "c15:tuner-best-config-not-optimum",
+                    "what": f"Tuner.best_config reports trial {tuner_best[0][0]}, the minimum is attained by trial "
+                            f"{min(rows, key=lambda x: x[1])[0]}", "detail": {"rows": rows[:20]}})
     if out[0][0] != out[1][0]:
         mon.append({"signature": "c15:pair-diverges:tuning-status-best",
                     "what": f"TuningStatus best trial: mode=min on f gives {out[0][0]}, mode=max on -f gives {out[1][0]} "
